@@ -114,6 +114,12 @@ CHECKS = {
   text="Sessions of 45..60 client API calls over every command the server implements x argument strings from 18 classes and mailbox names from 9 classes, all fetch-attribute subsets with body/binary sections, search-criteria trees over every field, list/status option subsets, sets incl. '*' and '$', payload sizes around 4096 x 4 server capability configurations x {nothing, UTF8=ACCEPT, IMAP4rev2} enabled.",
   design_ref="DESIGN.md §3 C02",
   note="Arguments over 4096 bytes that the server must buffer may be refused (then only 'not altered if delivered' is checked); features the server does not implement are not generated."),
+ "C03": dict(
+  category="exploration",
+  technique="runtime oracle at the client API boundary: a stub backend writes generated response plans through the real server's writer API, the real client decodes them over an in-process connection, and every Wait/Collect result is compared field-by-field (literals byte-for-byte, order preserved) with the plan under an explicit normalisation table; race detector on",
+  text="Sessions of 40..60 commands: FETCH over all attribute subsets with envelopes (NIL / empty / group address lists, 8-bit and quoted-special text), body structures nested to depth 3 with message/rfc822 and text parts and extension data, body and binary literals of sizes {0,1,2,100,4095,4096,4097,70000}, BINARY.SIZE; STATUS all items; LIST attributes / delimiters / CHILDINFO / OLDNAME / LIST-STATUS pairing; SEARCH vs ESEARCH; SELECT data incl. IMAP4rev2 LIST; APPENDUID; COPYUID tagged and untagged (MOVE and its COPY fallback); EXPUNGE streams; NAMESPACE; capabilities x 3 server configurations x {nothing, UTF8=ACCEPT, IMAP4rev2} enabled.",
+  design_ref="DESIGN.md §3 C03",
+  note="Only data the wire format can carry is demanded (normalisation listed in the evidence assumptions); the server's encoder is the producer, so server-side encoding defects that the client happens to tolerate are seen only when the decoded value differs."),
 }
 
 NOT_YET = "check not built yet in this round (planned in DESIGN.md §3; runtime monitoring applies)"
